@@ -57,6 +57,10 @@ class World:
             # Action (a list) and NotAction together, Resource and NotResource together: queries that merge the two lists
             {"Effect": "Allow", "Action": ["s3:GetObject", "s3:ListBucket"], "NotAction": ["iam:*", "kms:Decrypt"], "Resource": ["arn:aws:s3:::a"], "NotResource": ["arn:aws:s3:::b"],
              "Principal": {"AWS": ["arn:aws:iam::123456789012:root"]}, "NotPrincipal": {"AWS": ["arn:aws:iam::111122223333:user/alice"]}}]}}}}})
+        # two models whose scalars are equal as Python values but are different values of a template (True / 1 / 1.0, False / 0 / 0.0):
+        # anything remembered across calls under such a key shows when they are resolved in different orders
+        self.templates.append({"Resources": {"Flag": {"Type": "Custom::Flag", "Properties": {"Enabled": True, "Off": False, "Join": {"Fn::Join": [":", ["b", True, False]]}}}}})
+        self.templates.append({"Resources": {"Counter": {"Type": "Custom::Counter", "Properties": {"Weight": 1.0, "Ratio": 0.0, "One": 1, "Zero": 0, "Join": {"Fn::Join": [":", ["w", 1.0, 0.0, 1, 0]]}}}}})
         from pycfmodel.model.resources.properties.statement_condition import StatementCondition as _SC
 
         self.conds.append(_SC.model_validate({"StringLike": {"aws:PrincipalTag/op": pat}}))
